@@ -109,7 +109,17 @@ theorem ensureLinks_ok (ls : List Link) : ∀ (st : St), (∀ l ∈ ls, SegOK st
       simp [ensureSegs, ensureSeg_of_segOK st _ hf, ensureSeg_of_segOK st _ ht, Except.bind]
     simp only [ensureLinks, e, Except.bind]
     split
-    · exact ih st (fun k hk => h k (by simp [hk]))
+    · rename_i i hfound
+      apply ih
+      intro k hk
+      have := h k (by simp [hk])
+      have hg := (C02.grow_adopt st l i hfound (by
+        intro n hn
+        simp only [List.mem_cons, List.not_mem_nil, or_false] at hn
+        rcases hn with rfl | rfl
+        · exact hf
+        · exact ht)).1
+      exact ⟨hg.1 _ this.1, hg.1 _ this.2⟩
     · apply ih
       intro k hk
       have := h k (by simp [hk])
